@@ -37,6 +37,8 @@ pub struct Shared {
     pub fault: Mutex<Option<StreamFault>>,
     /// every byte string handed to the backend by a write (`put_opts`, multipart parts), with its path
     pub writes: Mutex<Vec<(String, Vec<u8>)>>,
+    /// everything else a write hands to the backend besides the body: attributes and tags (Debug text)
+    pub side: Mutex<Vec<(String, String)>>,
 }
 
 #[derive(Clone, Debug)]
@@ -104,10 +106,12 @@ impl ObjectStore for RecStore {
             v.extend_from_slice(s);
         }
         self.shared.writes.lock().unwrap().push((location.to_string(), v));
+        self.shared.side.lock().unwrap().push((location.to_string(), format!("{:?} {:?}", opts.attributes, opts.tags)));
         self.inner.put_opts(location, payload, opts).await
     }
 
     async fn put_multipart_opts(&self, location: &Path, opts: PutMultipartOptions) -> Result<Box<dyn MultipartUpload>> {
+        self.shared.side.lock().unwrap().push((location.to_string(), format!("{:?} {:?}", opts.attributes, opts.tags)));
         let inner = self.inner.put_multipart_opts(location, opts).await?;
         Ok(Box::new(RecUpload { path: location.to_string(), shared: self.shared.clone(), inner }))
     }
